@@ -4,6 +4,7 @@ import Pyunicorn.Model.NsiMeasures
 import Pyunicorn.Model.NsiBetw
 import Pyunicorn.Model.NetBetw
 import Pyunicorn.Model.NsiRw
+import Pyunicorn.Model.NsiEig
 /-! Line-protocol driver for C02. -/
 open Pyunicorn Pyunicorn.Proto Pyunicorn.Nsi
 
@@ -89,6 +90,19 @@ def rwAll (G : Gr) (K : Nat) : String :=
     "|nbins=" ++ toString (histNBins G) ++
     "|lbb=" ++ showRats (histLowerBounds G)
 
+/-- round 5: `nsi_eigenvector_centrality`.  For the vector `x` the implementation returned (its
+floats as exact rationals): the n.s.i. adjacency matrix applied to it, the cross-multiplied
+eigen-residual, the code's normalisation applied to it again, and the flags "all entries positive"
+/ "the network is connected" (the hypotheses `PosVec` / `Connected` of
+`nsi_eigenvector_centrality_split`). -/
+def eigAll (G : Gr) (x : Nat → Rat) : String :=
+  let idx := List.range G.n
+  "ax=" ++ showRats (idx.map fun i => nsiAdjApply G x i) ++
+    "|resid=" ++ showRats (eigResid G x) ++
+    "|norm=" ++ showRats (idx.map fun i => ecNorm G.n x i) ++
+    "|pos=" ++ (if idx.all fun i => decide (0 < x i) then "1" else "0") ++
+    "|conn=" ++ (if isConnected G then "1" else "0")
+
 def answer (toks : List String) : String :=
   match toks with
   | ["eval", tw, n, adj, w, la0, la1, g0, g1, dist] =>
@@ -129,6 +143,16 @@ def answer (toks : List String) : String :=
   | ["rwsplit", k, v, p, n, adj, w, la0, la1, g0, g1, dist] =>
       (match rat? p with
        | some pp => rwAll (split (mkGr n adj w la0 la1 g0 g1 dist) v.toNat! pp) k.toNat!
+       | none => "bad-p")
+  | ["eig", x, n, adj, w, la0, la1, g0, g1, dist] =>
+      let X := rats x
+      eigAll (mkGr n adj w la0 la1 g0 g1 dist) (fun k => X.getD k 0)
+  | ["eigsplit", v, p, x, n, adj, w, la0, la1, g0, g1, dist] =>
+      (match rat? p with
+       | some pp =>
+          let X := rats x
+          let G := mkGr n adj w la0 la1 g0 g1 dist
+          eigAll (split G v.toNat! pp) (fun k => X.getD (collapse G.n v.toNat! k) 0)
        | none => "bad-p")
   | _ => "bad-request"
 
